@@ -347,6 +347,11 @@ class GridMachineBase(Machine):
                     geo.setup_block_connection_name_index()
             else:
                 geo = geo_build.toy(self.mg, sub, convention=conv % 3, atmos=atm % 3)
+            if sub2 % 4 == 1:
+                # the geometry's atmosphere type is changed through its property setter before
+                # the grid is generated (reorder(geo=...) later relies on its derived lists)
+                geo.atmosphere_type = (geo.atmosphere_type + 1 + sub2 % 2) % 3
+                self.ctx.probes['geo_atmosphere_type_changed'] += 1
             g = self.call(lambda: tg.t2grid().fromgeo(geo), 'fromgeo')
             extra = tg.rocktype('rock1')
             g.add_rocktype(extra)
@@ -388,7 +393,12 @@ class GridMachineBase(Machine):
             return False
         a = g.blocklist[ch[0] % n]
         b = g.blocklist[ch[1] % n]
-        if a is b or frozenset((a.name, b.name)) in self.model.c:
+        if g.connectionlist and ch[2] % 6 == 5:
+            # re-adding a connection between the same two blocks in the same order replaces it
+            old = g.connectionlist[ch[0] % len(g.connectionlist)]
+            a, b = old.block
+            self.ctx.probes['add_connection_replaces'] += 1
+        elif a is b or frozenset((a.name, b.name)) in self.model.c:
             return False
         d = [(0.5, 1.0, 12.5)[ch[2] % 3], (0.25, 2.0, 50.0)[(ch[2] // 3) % 3]]
         area = (1.0, 4.0, 250.0)[ch[3] % 3]
@@ -541,7 +551,8 @@ class GridMachineBase(Machine):
         if n == 0:
             return False
         names = [g.blocklist[c % n].name for c in ch[:1 + ch[3] % 3]]
-        names = sorted(set(names), key=names.index)
+        if ch[3] % 5 == 4:
+            names = names + names[:1]          # a name may be listed twice
         arg = names[0] if len(names) == 1 and ch[3] % 2 else names
         self.call(lambda: g.demote_block(arg), 'demote_block')
 
@@ -744,13 +755,28 @@ class GridMachineBase(Machine):
         fs = ctx.fs
         fs.begin_op(2000000)
         path = ROOT + 'persist.dat'
-        self.call(lambda: dat.write(path), 't2data.write')
+        mode = ch[0] % 4
+        mesh = ''
+        if mode == 2:
+            mesh = ROOT + 'persist.MESH'
+        elif mode == 3 and all(b.centre is not None for b in g.blocklist) and \
+                not any(c.nseq or c.nad1 or c.nad2 for c in g.connectionlist):
+            mesh = (ROOT + 'persist.MESHA', ROOT + 'persist.MESHB')
+        self.persist_binary = isinstance(mesh, tuple)
+        self.call(lambda: dat.write(path, meshfilename=mesh), 't2data.write')
         fs.crash()
         fs.restart()
         fs.begin_op(2000000)
-        dat2 = self.call(lambda: self.td.t2data(path), 't2data.read')
+        dat2 = self.call(lambda: self.td.t2data(path, meshfilename=mesh), 't2data.read')
+        ctx.probes['persist_mesh_%s' % ('binary' if isinstance(mesh, tuple) else
+                                        ('ascii' if mesh else 'infile'))] += 1
         self.grid = dat2.grid
         self.geo_valid = False
+        if self.persist_binary:
+            # the binary files hold 0.0 where a connection has no gravity cosine
+            for v in self.model.c.values():
+                if v['dircos'] is None:
+                    v['dircos'] = 0.0
         ctx.probes['persist_restart'] += 1
 
     def finish(self):
